@@ -198,6 +198,7 @@ impl<'a, 't> Gen<'a, 't> {
         };
         // avoid bodies that would end the comment early or change its end: starts with '>' or '->'; ends with '-'
         let body = if body.starts_with('>') || body.starts_with("->") || body.ends_with('-') || body.contains("-->") || body.contains("--!>") { "c".to_string() } else { body };
+        let body = self.m(body);
         let start = self.pos();
         self.push("<!--");
         self.push(&body);
